@@ -209,8 +209,36 @@ func (j *jsonWriter) Struct(tag int, f func(writer)) {
 // TextString implements writer.
 func (j *jsonWriter) TextString(tag int, str string) {
 	j.encodeAppend(TypeTextString, tag, func(b []byte) []byte {
-		return strconv.AppendQuote(b, str)
+		return appendJSONString(b, str)
 	})
+}
+
+// appendJSONString appends str as a JSON string literal (RFC 8259, section 7):
+// quotation mark, reverse solidus and the control characters are escaped, every
+// other byte (UTF-8 sequences included) is copied as is. Go's strconv.Quote is
+// not suitable here: it produces escapes such as \a, \v, \x7f or \U0001f511
+// that are not JSON.
+func appendJSONString(b []byte, str string) []byte {
+	const hexDigits = "0123456789abcdef"
+	b = append(b, '"')
+	for i := 0; i < len(str); i++ {
+		c := str[i]
+		switch {
+		case c == '"' || c == '\\':
+			b = append(b, '\\', c)
+		case c == '\n':
+			b = append(b, '\\', 'n')
+		case c == '\r':
+			b = append(b, '\\', 'r')
+		case c == '\t':
+			b = append(b, '\\', 't')
+		case c < 0x20:
+			b = append(b, '\\', 'u', '0', '0', hexDigits[c>>4], hexDigits[c&0xF])
+		default:
+			b = append(b, c)
+		}
+	}
+	return append(b, '"')
 }
 
 type jsonReader struct {
